@@ -24,7 +24,8 @@
 (* value `lastT` is initialised with (getChainSampleIterator).  The code   *)
 (* then skips a first sample at that timestamp (DESIGN §7-H11, confirmed   *)
 (* on the real code: known finding KF-C19-1); the invariant is therefore   *)
-(* stated as  ChainMatchesRef \/ KF_C19_1.                                 *)
+(* stated as  ChainMatchesRef \/ KF_C19_1 \/ KF_C19_2 (KF_C19_2: the same    *)
+(* sentinel combined with a re-used iterator object, see `stale`).         *)
 (*                                                                         *)
 (* The behaviours handed to the Go harness carry the REFERENCE prediction  *)
 (* for every call (value type none/some, timestamp, allowed (input,type)   *)
@@ -39,11 +40,14 @@ CONSTANTS K,        \* number of input series, >= 1
           MaxT,     \* model times 0..MaxT ; Seek targets 0..MaxT+1
           Types,    \* sample types explored, subset of {"f","h","fh"}
           Lows,     \* subset of BOOLEAN
+          Stales,   \* subset of 0..K: 0 = fresh iterator object; j = re-used object whose c.curr still
+                    \* points at (what is now) the iterator of input j
           MaxOps,   \* number of Next/Seek calls per behaviour
           EmitMode  \* "all" | "none"
 
 VARIABLES ins,      \* [1..K -> Seq([t, ty])], strictly increasing t
           low,      \* model time 0 = math.MinInt64 ?
+          stale,    \* initial value of c.curr (getChainSampleIterator re-uses the object without resetting curr)
           slot,     \* Build cursor; K*(MaxT+1) when the inputs are complete
           idx,      \* [1..K -> Nat] cursor of the underlying iterators (0 = not started, Len+1 = exhausted)
           inited,   \* c.h # nil
@@ -54,8 +58,8 @@ VARIABLES ins,      \* [1..K -> Seq([t, ty])], strictly increasing t
           ret,      \* what the transcription returned last: [vt, t, src]
           nops, hist
 
-vars == <<ins, low, slot, idx, inited, heap, curr, lastT, pos, ret, nops, hist>>
-View == <<ins, low, slot, idx, inited, heap, curr, lastT, pos, ret>>
+vars == <<ins, low, stale, slot, idx, inited, heap, curr, lastT, pos, ret, nops, hist>>
+View == <<ins, low, stale, slot, idx, inited, heap, curr, lastT, pos, ret>>
 
 N     == MaxT + 1
 Ids   == 1..K
@@ -140,8 +144,9 @@ Init == /\ ins = [i \in Ids |-> <<>>]
         /\ idx = [i \in Ids |-> 0]
         /\ inited = FALSE
         /\ heap = {}
-        /\ curr = 0
-        /\ lastT = IF low THEN 0 ELSE -1
+        /\ stale \in Stales
+        /\ curr = stale
+        /\ lastT = MinInit
         /\ pos = 0
         /\ ret = [vt |-> "init", t |-> -1, src |-> 0]
         /\ nops = 0
@@ -155,7 +160,7 @@ Build ==
      IN \/ UNCHANGED ins
         \/ \E ty \in Types : ins' = [ins EXCEPT ![i] = Append(@, [t |-> t, ty |-> ty])]
   /\ slot' = slot + 1
-  /\ UNCHANGED <<low, idx, inited, heap, curr, lastT, pos, ret, nops, hist>>
+  /\ UNCHANGED <<low, stale, idx, inited, heap, curr, lastT, pos, ret, nops, hist>>
 
 Record(a, at, p) == Append(hist, [a |-> a, at |-> at] @@ Pred(p))
 
@@ -177,18 +182,22 @@ CNext ==
   /\ pos' = RefNext(pos)
   /\ nops' = nops + 1
   /\ hist' = Record("N", -1, pos')
-  /\ UNCHANGED <<ins, low, slot>>
+  /\ UNCHANGED <<ins, low, stale, slot>>
 
 \* chainSampleIterator.Seek(t)
 CSeek(t) ==
   /\ Built /\ nops < MaxOps
   /\ pos <= Len(Merged)      \* Seek on an exhausted iterator is outside the chunkenc.Iterator contract (see notes/C19.md)
   /\ IF curr # 0 /\ lastT >= t                           \* "No-op check."
-     THEN /\ ret' = [vt |-> "some", t |-> lastT, src |-> curr]     \* return c.curr.Seek(c.lastT)
-          /\ UNCHANGED <<idx, heap, curr, lastT>>
+     THEN LET k2 == USeek(curr, idx[curr], lastT) IN      \* return c.curr.Seek(c.lastT) (c.h is not touched)
+          /\ idx' = [idx EXCEPT ![curr] = k2]
+          /\ ret' = IF Valid(curr, k2) THEN [vt |-> "some", t |-> TAt(curr, k2), src |-> curr]
+                                       ELSE [vt |-> "none", t |-> -1, src |-> 0]
+          /\ UNCHANGED <<heap, curr, lastT, inited>>
      ELSE LET ix == [i \in Ids |-> USeek(i, idx[i], t)]            \* iter.Seek(t) for every iterator
               h  == {i \in Ids : Valid(i, ix[i])}
           IN /\ idx' = ix
+             /\ inited' = TRUE                                     \* c.h = samplesIteratorHeap{}
              /\ IF h = {}
                 THEN /\ curr' = 0 /\ heap' = {} /\ UNCHANGED lastT
                      /\ ret' = [vt |-> "none", t |-> -1, src |-> 0]
@@ -196,15 +205,14 @@ CSeek(t) ==
                        /\ curr' = i /\ heap' = h \ {i}
                        /\ lastT' = TAt(i, ix[i])
                        /\ ret' = [vt |-> "some", t |-> TAt(i, ix[i]), src |-> i]
-  /\ inited' = TRUE
   /\ pos' = RefSeek(pos, t)
   /\ nops' = nops + 1
   /\ hist' = Record("S", t, pos')
-  /\ UNCHANGED <<ins, low, slot>>
+  /\ UNCHANGED <<ins, low, stale, slot>>
 
 \* bookkeeping step so that a simulated walk is printed exactly once
 End == Built /\ nops = MaxOps /\ nops' = MaxOps + 1
-       /\ UNCHANGED <<ins, low, slot, idx, inited, heap, curr, lastT, pos, ret, hist>>
+       /\ UNCHANGED <<ins, low, stale, slot, idx, inited, heap, curr, lastT, pos, ret, hist>>
 
 Next == Build \/ CNext \/ (\E t \in 0..(MaxT + 1) : CSeek(t)) \/ End
 
@@ -232,7 +240,11 @@ ChainMatchesRef ==
 \* KF-C19-1: lastT starts at math.MinInt64, so a first sample with that timestamp is skipped by Next.
 KF_C19_1 == low /\ \E i \in Ids : HasT(i, 0)
 
-Conforms == ChainMatchesRef \/ KF_C19_1
+\* KF-C19-2: a re-used iterator object keeps its old c.curr; Seek(math.MinInt64) as the first call then
+\* takes the no-op branch (lastT = MinInt64 >= t) and answers from that one iterator.
+KF_C19_2 == low /\ stale # 0
+
+Conforms == ChainMatchesRef \/ KF_C19_1 \/ KF_C19_2
 
 \* nothing still waiting in the heap is older than what was returned last
 HeapAhead == \A i \in heap : curr # 0 => TAt(i, idx[i]) >= lastT
@@ -243,9 +255,9 @@ Monotone == [][ (ret'.vt = "some" /\ ret.vt = "some") => ret'.t >= ret.t ]_vars
 -----------------------------------------------------------------------------
 (* Emission                                                                 *)
 
-Case == [ins |-> ins, low |-> low, ops |-> hist]
+Case == [ins |-> ins, low |-> low, stale |-> stale, ops |-> hist]
 Emit == \/ EmitMode # "all"
         \/ hist' = hist
-        \/ PrintT("@@TR " \o ToJson([ins |-> ins', low |-> low', ops |-> hist']))
+        \/ PrintT("@@TR " \o ToJson([ins |-> ins', low |-> low', stale |-> stale', ops |-> hist']))
 EmitWalk == nops <= MaxOps \/ PrintT("@@TR " \o ToJson(Case))
 =============================================================================
